@@ -132,7 +132,7 @@ fn near_miss_sets(rng: &mut Rng, ds: &[SetD]) -> Vec<SetD> {
     out
 }
 
-fn containers_case(case: &mut Case) {
+pub fn containers_case(case: &mut Case) {
     let k = case.rng.range(1, 4);
     let d1: Vec<SetD> = (0..k).map(|_| gen_setd(&mut case.rng)).collect();
     let d2: Vec<SetD> = match case.rng.below(4) {
@@ -220,7 +220,7 @@ fn containers_case(case: &mut Case) {
     }
 }
 
-fn maps_case(case: &mut Case) {
+pub fn maps_case(case: &mut Case) {
     let k = case.rng.range(1, 3);
     let d1: Vec<MapD> = (0..k).map(|_| gen_mapd(&mut case.rng)).collect();
     let mut d2 = d1.clone();
@@ -373,7 +373,7 @@ fn mutate_rnet(rng: &mut Rng, n: &RNet) -> RNet {
     m
 }
 
-fn network_case(case: &mut Case) {
+pub fn network_case(case: &mut Case) {
     let d1 = gen_rnet(&mut case.rng);
     let d2 = match case.rng.below(3) {
         0 => d1.clone(),
@@ -393,7 +393,7 @@ fn network_case(case: &mut Case) {
     let _ = judge(case, shape, d1 == d2, &a, &b, wit);
 }
 
-fn misc_case(case: &mut Case) {
+pub fn misc_case(case: &mut Case) {
     // vector clocks: identity up to trailing zeros
     let v: Vec<u32> = (0..case.rng.below(5)).map(|_| case.rng.below(3) as u32).collect();
     let mut w = v.clone();
@@ -710,4 +710,7 @@ pub fn run(ctx: &mut Ctx) {
     ctx.cases("networks", ctx.n(20000, 1000000), 0, network_case);
     ctx.cases("clocks_densemaps_testers", ctx.n(10000, 400000), 0, misc_case);
     ctx.cases("actor_states", ctx.n(300, 15000), 0, actor_states_case);
+    if !ctx.quick() && !ctx.is_replay() && std::env::var_os("SVMON_LANE").is_none() {
+        crate::checks::c05::miri_smoke_lane(ctx, "c04", "C04");
+    }
 }
